@@ -402,12 +402,18 @@ Definition c19_bounds_ok (user_names : list string) (pred : toks) : bool :=
   let bs := split_plus (after_colon pred) [] 0 in
   forallb (bound_ok user_names) bs && forallb (bound_ok user_names) (flat_map inner_dyn_bounds bs).
 
+(** the macro's fixed thread-safety requirement is there, and it is [::core::marker::Sync] — whatever [Sync] means in the
+    invoking scope and whatever the user's own bounds are called *)
+Definition c19_fixed_bounds (p : toks) : bool :=
+  let bs := split_plus (after_colon p) [] 0 in
+  existsb (toks_eqb (core_marker "Sync")) bs && existsb (toks_eqb [pc "'"; TId "static"]) bs.
+
 Definition view_C19 (c : ctx) (items : list item) : view :=
   match x_input c, parts (x_input c) items with
   | (InFn _ _ _ | InMod _ _ _ _ _ | InImpl _ _ _ _ _ _), Some (GFn _ _ im | GMod _ _ _ _ _ im _ _ | GImpl _ im) =>
       let p := first_param_toks (i_gen im) in
       if is_prefix [TId "EntraitT"] p then
-        decided (c19_bounds_ok [] p) [p]
+        decided (c19_bounds_ok [] p && c19_fixed_bounds p) [p]
       else na
   | InTrait _ t, Some (GTrait tr ds im) =>
       match trait_attr_of c with
@@ -416,7 +422,7 @@ Definition view_C19 (c : ctx) (items : list item) : view :=
                        (match ta_delegate a with Some (ByTrait d) => [d] | _ => [] end) in
           let p := first_param_toks (i_gen im) in
           let w := first_where_toks (i_gen im) in
-          decided (c19_bounds_ok [] p && c19_bounds_ok users w) [p; w]
+          decided (c19_bounds_ok [] p && c19_fixed_bounds p && c19_bounds_ok users w) [p; w]
       | None => na
       end
   | (InFn _ _ _ | InMod _ _ _ _ _ | InImpl _ _ _ _ _ _ | InTrait _ _), None => undetermined
